@@ -53,3 +53,18 @@ M("c04_ph_directions_swapped", PH, "        if self.direction == \"positive\":\n
 M("c04_ph_burnin_ge", PH, "if drift_check and self.samples_since_reset > self.burn_in:", "if drift_check and self.samples_since_reset >= self.burn_in:", ["C04", "C01"])
 # (equivalent: PageHinkley._mean not reset - the first update of an epoch overwrites it: mean + (x - mean)/1 == x)
 M("c04_ph_delta_sign", PH, "self._sum = self._sum + X - self._mean - self.delta", "self._sum = self._sum + X - self._mean + self.delta", ["C04"])
+
+AD = "menelaus/change_detection/adwin.py"
+AA = "menelaus/concept_drift/adwin_accuracy.py"
+M("c03_chan_merge_term", AD, "+ n_elements * (mean1 - mean2) * (mean1 - mean2) / 2\n", "+ n_elements * (mean1 - mean2) * (mean1 - mean2) / 4\n", ["C03"])
+M("c03_remove_last_no_between_term", AD, "        self._curr_variance -= curr_bucket_row.bucket_variances[\n            0\n        ] + n_curr * self._window_size * (", "        self._curr_variance -= curr_bucket_row.bucket_variances[\n            0\n        ] + 0 * n_curr * self._window_size * (", ["C03"])
+M("c03_subwindow_gt", AD, "(n_elements0 >= self.subwindow_size_thresh)", "(n_elements0 > self.subwindow_size_thresh)", ["C03"])
+M("c03_schedule_shift", AD, "self.total_samples % self.new_sample_thresh == 0", "self.total_samples % self.new_sample_thresh == (1 if self.new_sample_thresh > 1 else 0)", ["C03", "C01"])
+M("c03_recs_start_off_by_one", AD, "                                    self.total_samples - self._window_size,\n", "                                    self.total_samples - self._window_size + 1,\n", ["C03"])
+M("c03_epscut_delta_half", AD, "                2 * log(n_elements) / self.delta\n", "                2 * log(n_elements) / (self.delta / 2)\n", ["C03"])
+M("c03_window_thresh_ge", AD, "and self._window_size > self.window_size_thresh", "and self._window_size >= self.window_size_thresh", ["C03", "C01"])
+M("c03_empty_tail_rows_again", AD, "        while (\n            self._bucket_row_list.size > 1\n            and self._bucket_row_list.tail.bucket_count == 0\n        ):\n            self._bucket_row_list.remove_tail()", "        if curr_bucket_row.bucket_count == 0:\n            self._bucket_row_list.remove_tail()", ["C03"])
+M("c03_accuracy_default_period", AA, "            new_sample_thresh=new_sample_thresh,\n", "            new_sample_thresh=32,\n", ["C03"])
+M("c03_accuracy_inverted_indicator", AA, "new_value = int(y_true == y_pred)", "new_value = int(y_true != y_pred)", ["C03", "C16"])
+M("c03_conservative_bound_swapped", AD, "        if not self.conservative_bound:\n", "        if self.conservative_bound and self._window_size > 64 or not self.conservative_bound:\n", ["C03"])
+M("c03_variance_first_sample", AD, "        if self._window_size > 1:\n            self._curr_variance += (", "        if self._window_size > 2:\n            self._curr_variance += (", ["C03"])
